@@ -595,6 +595,11 @@ func stateFoundArrayItemBeginOrEmpty(s *Scanner, c byte) state {
 }
 
 func stateFoundArrayItemBegin(s *Scanner, c byte) state {
+	if s.isNewLine(c) && s.annotation == annotationNone {
+		// Same as for object properties: an annotation on a new line cannot
+		// belong to an array that was closed on a previous line.
+		s.allowAnnotation = true
+	}
 	if s.isCommentStart(c) {
 		s.switchToComment()
 		return scanContinue
